@@ -953,6 +953,14 @@ func (g *Gen) ProposalOptionsPair() []txgen.Tx {
 	return []txgen.Tx{a, b}
 }
 
+// ProposalCreateCfg draws a configuration-update proposal that names the given option string.
+func (g *Gen) ProposalCreateCfg(cfg string) txgen.Tx {
+	g.forceCfg = cfg
+	tx := g.ProposalCreate()
+	g.forceCfg = ""
+	return tx
+}
+
 func (g *Gen) ProposalFund() txgen.Tx {
 	w := g.W
 	if len(w.Props) == 0 && !g.pct(g.Strange, "fund-none") {
